@@ -141,6 +141,34 @@ Definition ad_opt_step (ops : list adop) (s : vec * list vec * list vec) : vec *
   let '(x, duals, tmps) := s in
   let '(xf, ds, tmpsf, _) := ad_sweep_opt ops duals tmps (ad_pre ops duals x) in (xf, ds, tmpsf).
 
+(* random=True: the second inner loop runs over the permutation [ord] drawn in this iteration
+   (any list of indices); duals are addressed by index *)
+Fixpoint ad_sweep_ord_opt (ops : list adop) (dflt : adop) (ord : list nat) (duals tmps : list vec) (x : vec)
+  : vec * list vec * list vec :=
+  match ord with
+  | [] => (x, duals, tmps)
+  | j :: ord' =>
+      let o := nth j ops dflt in let d := getnth j duals in
+      let tmps1 := setnth (ad_key o) (ad_prox o (ad_arg o d x)) tmps in
+      let tmp_ran := getnth (ad_key o) tmps1 in
+      let x1 := vsub x (vscal (none_ / stepsize) (ad_Ladj o (vsub tmp_ran d))) in
+      ad_sweep_ord_opt ops dflt ord' (setnth j tmp_ran duals) tmps1 x1
+  end.
+Fixpoint ad_sweep_ord_ref (ops : list adop) (dflt : adop) (ord : list nat) (duals : list vec) (x : vec)
+  : vec * list vec :=
+  match ord with
+  | [] => (x, duals)
+  | j :: ord' =>
+      let o := nth j ops dflt in let d := getnth j duals in
+      let dual_tmp := ad_prox o (ad_arg o d x) in
+      let x1 := vsub x (vscal (none_ / stepsize) (ad_Ladj o (vsub dual_tmp d))) in
+      ad_sweep_ord_ref ops dflt ord' (setnth j dual_tmp duals) x1
+  end.
+Definition ad_opt_step_ord (ops : list adop) (dflt : adop) (ord : list nat) (s : vec * list vec * list vec) :=
+  let '(x, duals, tmps) := s in ad_sweep_ord_opt ops dflt ord duals tmps (ad_pre ops duals x).
+Definition ad_ref_step_ord (ops : list adop) (dflt : adop) (ord : list nat) (s : vec * list vec) :=
+  let '(x, duals) := s in ad_sweep_ord_ref ops dflt ord duals (ad_pre ops duals x).
+
 Definition ad_duals0 (ops : list adop) : list vec := map (fun o => vzero (ad_m o)) ops.
 Definition ad_ref_run (ops : list adop) (n : nat) (x : vec) : vec :=
   fst (iter n (ad_ref_step ops) (x, ad_duals0 ops)).
@@ -201,6 +229,24 @@ Definition pdhg_ref_step (s : pdhg_st) : pdhg_st :=
   mk_pdhg_st x xr y.
 End PDHG.
 
+(* ===================================================== accelerated PDHG, step sizes carried *)
+Section PDHGacc.
+(* acc (tau, sigma) = (theta, (tau', sigma')): the scalar update of one iteration
+   (gamma_primal: theta = 1/sqrt(1 + 2 gamma tau), tau' = tau theta, sigma' = sigma / theta;
+    gamma_dual:   theta = 1/sqrt(1 + 2 gamma sigma), tau' = tau / theta, sigma' = sigma theta).
+   The proximals depend on the current step sizes. *)
+Variables (L Ladj : vec -> vec) (proxp proxd : T -> vec -> vec) (acc : T * T -> T * (T * T)).
+Fixpoint pdhg_acc_iter (n : nat) (ts : T * T) (st : pdhg_st) : (T * T) * pdhg_st :=
+  match n with
+  | O => (ts, st)
+  | S k => let '(th, ts') := acc ts in
+           pdhg_acc_iter k ts' (pdhg_step L Ladj (proxp (fst ts)) (proxd (snd ts)) (fst ts) (snd ts) th st)
+  end.
+(* the step sizes at the head of iteration k *)
+Fixpoint acc_steps (k : nat) (ts : T * T) : T * T :=
+  match k with O => ts | S k' => acc_steps k' (snd (acc ts)) end.
+End PDHGacc.
+
 (* =============================================================== Landweber *)
 Section Landweber.
 (* op, the adjoint of its derivative at a point, optional projection (identity when None) *)
@@ -226,6 +272,9 @@ Fixpoint kz_sweep (ops : list kzop) (x : vec) : vec * list vec :=
   | o :: ops' => let x1 := kz_one o x in let '(xf, tr) := kz_sweep ops' x1 in (xf, x1 :: tr)
   end.
 Definition kz_step (ops : list kzop) (x : vec) : vec := fst (kz_sweep ops x).
+(* random=True: the sweep runs over the permutation [ord] drawn in this iteration *)
+Definition kz_step_ord (ops : list kzop) (dflt : kzop) (ord : list nat) (x : vec) : vec :=
+  kz_step (map (fun i => nth i ops dflt) ord) x.
 Fixpoint kz_trace_inner (ops : list kzop) (n : nat) (x : vec) : list vec :=
   match n with O => [] | S k => let '(xf, tr) := kz_sweep ops x in tr ++ kz_trace_inner ops k xf end.
 End Kaczmarz.
